@@ -28,9 +28,7 @@ fn main() {
         usage();
     }
     let verif_dir = PathBuf::from(std::env::var("VERIF_DIR").unwrap_or_else(|_| "/verif".into()));
-    let lace_bin = PathBuf::from(
-        std::env::var("LACE_BIN").unwrap_or_else(|_| "/verif/target/lacebin/release/lace".into()),
-    );
+    let lace_bin = std::env::var("LACE_BIN").map(PathBuf::from).unwrap_or_else(|_| verif_dir.join("target/lacebin/release/lace"));
     let seed: u64 = std::env::var("VERIF_SEED")
         .ok()
         .and_then(|s| s.parse().ok())
